@@ -47,6 +47,8 @@ class Gen:
                     st["oins"], st["ins"] = [x for x in ins if x in avail], []
                 elif r.random() < 0.2 and len(avail) > k:
                     st["oins"] = [r.choice([a for a in avail if a not in ins])]
+                if sc["pools"] and r.random() < 0.3:
+                    st["pool"] = r.choice(sorted(sc["pools"]) + ["console"])      # a phony statement may carry a pool binding too
                 sc["stmts"].append(st)
                 avail.append("al%d" % i)
                 continue
@@ -73,6 +75,12 @@ class Gen:
                 if st["deps"] != "msvc":
                     st["depfile"] = outs[0] + ".d"
                 incs = [h for h in hdrs if r.random() < 0.5]
+                if r.random() < 0.15:
+                    # a source that includes another source file (unity builds, generated tables): the first thing the
+                    # compiler reports then has a source extension
+                    inc_src = "inc%d.%s" % (i, r.choice(("cc", "c", "cpp")))
+                    sc["sources"][inc_src] = "// included source %d\n" % i
+                    incs.insert(0, inc_src)
                 gh = [g for g in gen_headers if r.random() < 0.35][:2]
                 for g in gh:
                     incs.append(g)
@@ -108,7 +116,8 @@ class Gen:
                 st["early"] = True      # starts writing its outputs (and depfile) in place as soon as it runs
             if sc["pools"] and self.p("pools"):
                 st["pool"] = r.choice(sorted(sc["pools"]))
-            elif self.p("console"):
+            elif self.p("console") and st["deps"] != "msvc":
+                # (a console command's output goes to the terminal, not through ninja: /showIncludes notes could not be parsed)
                 st["pool"] = "console"
             if self.p("rsp"):
                 st["rsp"] = outs[0] + ".rsp"
@@ -140,7 +149,7 @@ class Gen:
                 sc["defaults"] = r.sample(roots, r.randint(1, len(roots)))
         return sc
 
-    def add_dyndep(self, sc, static=False, on_rule=False, tag="d"):
+    def add_dyndep(self, sc, static=False, on_rule=False, tag="d", respell=True):
         """adds statements served by a dyndep file (produced by a scanner statement, or pre-existing): implicit inputs
         (leaf headers, outputs of other statements, outputs provided by earlier served statements), implicit outputs, restat"""
         from .simlib import dyndep_text
@@ -196,7 +205,30 @@ class Gen:
         scan = St(scan_id, [dd], ins=["%s%d.src" % (tag, i) for i in range(nserved)] + [scan_cfg], kind="scan",
                   serves=[[s["outs"][0], s["ins"][0]] for s in served])
         if static:
-            sc["sources"][dd] = dyndep_text(scan, sc["sources"])
+            text = dyndep_text(scan, sc["sources"])
+            if respell and r.random() < 0.5:
+                # a hand-written (or differently generated) dyndep file spells paths as it likes: './x', 'a//b', 'a/./b'
+                lines = []
+                for ln in text.split("\n"):
+                    if ln.startswith("build ") and ": dyndep" in ln:
+                        left, right = ln.split(": dyndep", 1)
+
+                        def resp(tok):
+                            if tok in ("|", "build", "") or r.random() < 0.5:
+                                return tok
+                            x = r.random()
+                            if x < 0.5:
+                                return "./" + tok
+                            if "/" in tok:
+                                return tok.replace("/", "//" if x < 0.75 else "/./", 1)
+                            return "./" + tok
+                        lt = left.split(" ")
+                        left = " ".join(lt[:2] + [resp(t_) for t_ in lt[2:]])          # the statement's own first output stays as written
+                        right = " ".join(resp(t_) for t_ in right.split(" "))
+                        ln = left + ": dyndep" + right
+                    lines.append(ln)
+                text = "\n".join(lines)
+            sc["sources"][dd] = text
             sc.setdefault("static_dd", {})[dd] = scan["serves"]
         else:
             sc["stmts"].append(scan)
@@ -261,7 +293,7 @@ class Gen:
         kinds = kinds or ["edit", "edit", "touch", "rm_out", "cmd", "rsp", "rmlog", "rm_depfile", "edit_hdr", "edit_hdr"]
         for _ in range(20):
             k = r.choice(kinds)
-            srcs = sorted(p for p in sc["sources"] if p.endswith(".c") or p.endswith(".src"))    # .src: what dyndep files are scanned from
+            srcs = sorted(p for p in sc["sources"] if p.endswith((".c", ".cc", ".cpp", ".src")))    # .src: what dyndep files are scanned from
             hdrs = sorted(p for p in sc["sources"] if p.endswith(".h"))
             cmds = [s for s in sc["stmts"] if s["kind"] != "phony"]
             if k == "edit" and srcs:
